@@ -453,6 +453,8 @@ func phases(thorough bool) []phase {
 
 const c06Keys = `^(term|entries|entries-error|firstindex|lastindex|snapshot|initialstate|save-error|create-snapshot-error|create-snapshot-value|nil|panic)$`
 
+const c20Keys = `^(unattached-node-bootstraps-a-zero-group-of-its-own|panic:)`
+
 func main() {
 	thorough := os.Getenv("VERIF_TIER") == "thorough"
 	tbudget := 110 * time.Second
@@ -462,6 +464,9 @@ func main() {
 	if len(os.Args) > 2 && os.Args[1] == "--replay" {
 		if ev.PartOf(os.Args[2]) == "C06" {
 			ev.ReplayPart("C05", os.Getenv("VERIF_BIN_C06"), c06Keys, os.Args[2], "VERIF_PART_PHASES=^single-group$")
+		}
+		if ev.PartOf(os.Args[2]) == "C20" {
+			ev.ReplayPart("C05", os.Getenv("VERIF_BIN_C20"), c20Keys, os.Args[2], "VERIF_PART_MODE=directed", "VERIF_TUNABLE_snapshotOffset=0")
 		}
 		var f struct {
 			Replay struct {
@@ -635,6 +640,10 @@ func main() {
 	// back is the log store's answer - C06's single-group phase counts here for every answer raft would get wrong
 	if os.Getenv("VERIF_AS") == "" {
 		run.RunPart("log-store-C06", os.Getenv("VERIF_BIN_C06"), c06Keys, "VERIF_PART_PHASES=^single-group$")
+		// "it neither re-bootstraps, forks history, nor panics": the start-up decision (bootstrap / join / restart) is taken
+		// by the server; C20's directed histories on real servers count here for a node that starts a history of its own
+		// and for panics
+		run.RunPart("server-start-up-C20", os.Getenv("VERIF_BIN_C20"), c20Keys, "VERIF_PART_MODE=directed", "VERIF_TUNABLE_snapshotOffset=0")
 	}
 	run.Finish(ev.Coverage{
 		"states":                        total.States,
